@@ -116,6 +116,8 @@ def check_engine(rep, fb, ex, eq, callgraph):
         ' and '.join(sorted(hd)), '' if hd == ['nothing remembered'] else ' -- the recommendation takes it whenever no history value is recorded; with the extra condition a transition into the history of an active parent enters nothing'))
     # R01.15 extent of the exit interval
     exit_extent(rep, fb, f, eng)
+    if f.rec.endswith('LargeMicroStep'):
+        selection_cursor(rep, fb, 'R01.19')
     # R01.14 the set of still-compatible transitions only narrows
     if f.rec.endswith('LargeMicroStep'):
         narrowing_polarity(rep, fb, f, eng)
@@ -142,6 +144,67 @@ def check_engine(rep, fb, ex, eq, callgraph):
     pred = callgraph.reach([f])
     direct_dm = [fb.funcs[m].q for m in pred if fb.funcs[m].file.startswith('src/uscxml/plugins/datamodel/') and pred[m] is not None and fb.funcs[pred[m]].file.startswith('src/uscxml/interpreter/' + eng)]
     rep.check(not direct_dm, 'R01.10', eng + '|datamodel-independent', f.where(), 'the engine reaches data models only through the MicroStepCallbacks interface (direct calls: %s)' % direct_dm)
+
+
+def selection_cursor(rep, fb, rule='R01.19'):
+    """the selection loop of the large engine: extra advances of the iterator over the post-fix view are conditioned on the
+    state whose transition was just selected"""
+    f = fb.fn('uscxml::LargeMicroStep::step')
+    n_loops = 0
+    for lp in f.walk():
+        if lp['k'] != 'ForStmt' or lp['c'][0] is None or lp['c'][0]['k'] != 'DeclStmt':
+            continue
+        d0 = lp['c'][0]['decls'][0]
+        if 'init' not in d0 or not any(x['k'] == 'MemberExpr' and x['ref'].get('name') == '_configurationPostFix' for x in sub(d0['init'])):
+            continue
+        it = d0['lid']
+        body = lp['c'][-1]
+        # the fetch:  State* state = *it++   (or *it followed by ++it)
+        fetched = None
+        for n in sub(body):
+            if n['k'] == 'DeclStmt':
+                for d in n.get('decls', []):
+                    if 'init' in d and any(x['k'] == 'DeclRefExpr' and x.get('ref', {}).get('lid') == it for x in sub(d['init'])) and 'State' in (d.get('t') or ''):
+                        fetched = d
+                        break
+            if fetched:
+                break
+        if fetched is None:
+            continue
+        n_loops += 1
+        derived = {fetched['lid']}
+        changed = True
+        while changed:
+            changed = False
+            for n in sub(body):
+                if n['k'] == 'DeclStmt':
+                    for d in n.get('decls', []):
+                        if d['lid'] not in derived and 'init' in d and any(x['k'] == 'DeclRefExpr' and x.get('ref', {}).get('lid') in derived for x in sub(d['init'])) and 'State' in (d.get('t') or ''):
+                            derived.add(d['lid'])
+                            changed = True
+        fetch_ids = {x['id'] for x in sub(fetched['init'])}
+        adv = [n for n in sub(body) if n['k'] in ('CXXOperatorCallExpr', 'UnaryOperator') and n.get('op') in ('++', '--') and n['id'] not in fetch_ids and any(
+            x['k'] == 'DeclRefExpr' and x.get('ref', {}).get('lid') == it for x in sub(n))]
+        for a in adv:
+            conds = []
+            for anc in f.ancestors(a):
+                if anc is lp:
+                    break
+                if anc['k'] in ('WhileStmt', 'IfStmt', 'ForStmt', 'DoStmt'):
+                    c = anc['c'][0] if anc['k'] != 'ForStmt' else (anc['c'][2] if len(anc['c']) > 2 else None)
+                    if anc['k'] == 'DoStmt':
+                        c = anc['c'][-1]
+                    if c is not None:
+                        conds.append(c)
+                        break           # the innermost controlling condition decides the skip
+            related = any(x['k'] == 'DeclRefExpr' and x.get('ref', {}).get('lid') in derived for c in conds for x in sub(c))
+            rep.check(related, rule, 'LargeMicroStep|extra advance of the selection cursor#%d' % sum(1 for x in adv if x['loc'][1] < a['loc'][1]), locstr(a),
+                      'besides the fetch `%s` the cursor over _configurationPostFix is advanced %s' % (' '.join(fb.text(fetched['init']).split())[:30],
+                      'under a condition on the fetched state (skips what that state pre-empts)' if related else
+                      'under a condition that does NOT mention the fetched state: after `*it++` the cursor already names the NEXT entry, so the skip judges the wrong state and drops an orthogonal region whose following entry is its parent'))
+        if not adv:
+            rep.ok(rule, 'LargeMicroStep|selection cursor', 'the cursor is advanced by the fetch only')
+    rep.minimum(rule, n_loops, 1, 'loops over _configurationPostFix that fetch a state in LargeMicroStep::step')
 
 
 def exit_extent(rep, fb, f, eng):
@@ -269,6 +332,7 @@ def run(rep, tier):
     rep.rule('R01.6', 'bitset typestate: no dynamic_bitset is indexed after clear() shrank it to zero bits')
     rep.rule('R01.8', 'interval closedness agreement: overlap and membership tests on exit intervals use non-strict comparisons, like the place that applies the interval')
     rep.rule('R01.9', 'state kind codes are an enumeration: they are compared, never bit-masked')
+    rep.rule('R01.19', 'every active state is asked for transitions: the loop that selects transitions advances its cursor over the post-fix view only by the fetch, or skips further entries under a condition on the state just handled (its ancestors); a skip that judges whatever the cursor names after the fetch drops the next orthogonal region')
     rep.rule('R01.16', 'history default: a history pseudo-state takes its default transition exactly when nothing is remembered for it (no further condition such as "the parent is not active")')
     rep.rule('R01.15', 'extent of the exit interval: its upper end is the last descendant of the transition domain, i.e. it is computed from the ancestor relation (membership scan or a walk up the parents), never from the position of the domain\'s next sibling alone with the end of the document as fall-back')
     rep.rule('R01.14', 'selection bookkeeping (large engine): when a further transition is selected, a bit of _compatible survives only if the new transition lists that index as compatible (intersection), and _conflicting only gains bits (union); the value stored is decided by the membership test with the right polarity')
